@@ -391,8 +391,10 @@ def finish(prop, rep):
         f"{len(rep.hashes)} distinct non-trivial, {rep.inconclusive} inconclusive, excluded_known={dict(rep.excluded)}, {wall:.1f}s"
     )
     if rep.errors:
-        for e in rep.errors:
-            sys.stderr.write("HARNESS ERROR:\n" + e + "\n")
+        for e in rep.errors[:2]:
+            sys.stderr.write("HARNESS ERROR:\n" + e[-1500:] + "\n")
+        if len(rep.errors) > 2:
+            sys.stderr.write(f"... and {len(rep.errors) - 2} more harness errors\n")
         if not replay_paths:
             return 2
     if replay_paths:
